@@ -506,6 +506,12 @@ def ev(n, env, funcs=None):
             return '<%s>' % type(args[0]).__name__ if isinstance(args[0], (PyStub, Obj)) else str(args[0])
         if fname in ('int', 'float', 'bool') and len(args) == 1:
             return {'int': int, 'float': float, 'bool': bool}[fname](args[0])
+        if isinstance(f, ast.Name) and fname == 'complex' and 1 <= len(args) <= 2 and all(isinstance(a_, (int, float, complex)) for a_ in args):
+            return complex(*args)
+        if isinstance(f, ast.Name) and fname == 'round' and 1 <= len(args) <= 2:
+            return round(*args)
+        if isinstance(f, ast.Name) and fname == 'divmod' and len(args) == 2:
+            return divmod(*args)
         kw_ = _kw(n, env, funcs)
         if funcs and fname in funcs and fname not in ('__globals__', '__name__', '__resolve__'):
             return funcs[fname](*args, **kw_)
@@ -778,7 +784,7 @@ def run_block(stmts, env, funcs=None, limit=10000):
             for item in it:
                 n_it += 1
                 if n_it > limit:
-                    raise Unsupported('loop bound')
+                    raise Raised('NonTermination', 'a loop ran for more than %d iterations on this small input' % limit)
                 _bind(s.target, item, env, funcs)
                 r = run_block(s.body, env, funcs, limit)
                 if r[0] == 'break':
@@ -790,7 +796,7 @@ def run_block(stmts, env, funcs=None, limit=10000):
             while ev(s.test, env, funcs):
                 n_it += 1
                 if n_it > limit:
-                    raise Unsupported('loop bound')
+                    raise Raised('NonTermination', 'a loop ran for more than %d iterations on this small input' % limit)
                 r = run_block(s.body, env, funcs, limit)
                 if r[0] == 'break':
                     break
